@@ -24,6 +24,10 @@ def main():
             from .check_sweep import run_property
 
             sys.exit(run_property(prop, a.tier, seeds, ops))
+        if prop == "C11":
+            from .check_c11 import run
+
+            sys.exit(run(a.tier))
         if prop == "C12":
             from .check_c12 import run
 
